@@ -7,12 +7,14 @@ import BppModel.Drive.C05
 import BppModel.Drive.C06
 import BppModel.Drive.C07
 import BppModel.Drive.C08
+import BppModel.Drive.C09
 import BppModel.Drive.C10
 import BppModel.Drive.C11
 import BppModel.Drive.C12
 import BppModel.Drive.C13
 import BppModel.Drive.C14
 import BppModel.Drive.C15
+import BppModel.Drive.C16
 import BppModel.Drive.C17
 import BppModel.Drive.C18
 import BppModel.Drive.C19
@@ -29,12 +31,14 @@ def main (args : List String) : IO UInt32 := do
   | ["C06"] => Proto.run Drive.C06.machine; return 0
   | ["C07"] => Proto.run Drive.C07.machine; return 0
   | ["C08"] => Proto.run Drive.C08.machine; return 0
+  | ["C09"] => Proto.run Drive.C09.machine; return 0
   | ["C10"] => Proto.run Drive.C10.machine; return 0
   | ["C11"] => Proto.run Drive.C11.machine; return 0
   | ["C12"] => Proto.run Drive.C12.machine; return 0
   | ["C13"] => Proto.run Drive.C13.machine; return 0
   | ["C14"] => Proto.run Drive.C14.machine; return 0
   | ["C15"] => Proto.run Drive.C15.machine; return 0
+  | ["C16"] => Proto.run Drive.C16.machine; return 0
   | ["C17"] => Proto.run Drive.C17.machine; return 0
   | ["C18"] => Proto.run Drive.C18.machine; return 0
   | ["C19"] => Proto.run Drive.C19.machine; return 0
